@@ -32,6 +32,27 @@ claim("C09", "interprocedural error-provenance dataflow (EF-IO, EF-DROP, EF-EOF)
       TRUST + "Never-fail table: hash.Hash*.Write, *bytes.Buffer writes; named suppressions breader.ReadByte, writer.removeTmpFile, writer.discard.",
       "DESIGN.md §4 C09, §3.3, §3.7")
 
+claim("C18", "finite-domain abstract evaluation of the SSA (order-abstract capacity, all 256 code bytes) against the specification table",
+      "Decides the WHOLE statement: DecodeDictCap over all 256 code bytes (accept set 0..40, the 41 specified sizes, reject set), EncodeDictCap over an exact "
+      "finite partition of all capacities 1..2^32-1 (the capacity is an order-abstract symbol that may only be compared with representable sizes; any other "
+      "use is reported as undecided), and the xz filter-flags codec {0x21,1,code} both ways. No test calls these functions; the domain is finite so it is settled completely.",
+      TRUST + "Specification formula frozen in tables.go specDictCap.", "DESIGN.md §4 C18, §3.2")
+
+claim("C16", "finite-domain abstract evaluation + automaton product (language equivalence); path-sensitive event-sequence rules per chunk kind",
+      "Decides: chunkState.next (extracted over all reachable states x 7 kinds) is language-equivalent to the specification's chunk automaton; all 256 control bytes "
+      "classified/rejected as specified; header lengths and the chunk-header field layout both ways at boundary values; in Reader2.startChunk the header is used only "
+      "after the accepting edge of cstate.next and the per-kind effects (dictionary reset, state reset, new properties, raw reader into the dictionary, size limits) are "
+      "exactly the format's on every path; decoder.Reopen's write set; writer emits only legal sequences, records the emitted type, budget constants and stores. "
+      "Not decided: that accepted sequences decode to the right bytes beyond the resets; the 64 KiB bound on uncompressed chunks (numeric).",
+      TRUST + "Specification automaton transcribed from liblzma lzma2_decoder.c (tables.go specNext).", "DESIGN.md §4 C16")
+
+claim("C08", "typestate and must-pass-through rules over all paths (event words), error-provenance dataflow, chunk-automaton legality",
+      "Decides on all paths of the LZMA2 writer: calls on a closed writer have no effect and fail; Close returns nil only after Flush . {0x00} write . cstate=stop; "
+      "every effect of Flush is a flushChunk dominated by written() > 0; flushChunk projects onto the frozen 8-event word; the raw fallback records the mapped chunk type "
+      "and restores the start-of-chunk coder state; headers carry w.ctype; emitted chunk sequences are legal; no sink error is masked (EF-IO). Call histories cannot be "
+      "enumerated by tests; the paths of these seven functions can. Not decided: that the flushed prefix decodes to the data written (ring-buffer arithmetic, coder correctness).",
+      TRUST, "DESIGN.md §4 C08, §3.5")
+
 NOT_YET = "not yet decided: rules under construction (DESIGN.md §10); no claim is made"
 
 def main():
